@@ -121,11 +121,17 @@ def gen_alt(rng, idx, kinds, default_endian, zones):
             isz = rng.choice([1, 2, 3])
             idxs = []
             for j in range(rng.randint(1, 3)):
-                if rng.random() < 0.6:
+                r = rng.random()
+                if r < 0.5:
                     idxs.append({'id': f'ix{idx}_{j}', 'kind': 'register', 'register': rng.choice(REGS), 'code': (rng.randrange(1 << isz), isz)})
-                else:
+                elif r < 0.8:
                     idxs.append({'id': f'ix{idx}_{j}', 'kind': 'numeric', 'code': (rng.randrange(1 << isz), isz), 'arg': gen_arg(rng, default_endian)})
-            if rng.random() < 0.15:      # index operands without codes
+                else:
+                    # the index value itself is the code, range checked; negative values are packed in two's complement
+                    lo = rng.choice([0, -(1 << (isz - 1)), -1])
+                    idxs.append({'id': f'ix{idx}_{j}', 'kind': 'numeric_bytecode', 'code': None, 'code_size': isz, 'min': lo,
+                                 'max': rng.choice([(1 << isz) - 1, (1 << (isz - 1)) - 1 if isz > 1 else 1, 1])})
+            if rng.random() < 0.15 and not any(i['kind'] == 'numeric_bytecode' for i in idxs):      # index operands without codes
                 for i in idxs:
                     i['code'] = None
             alt['idx'] = idxs
@@ -313,8 +319,13 @@ def gen_step(rng, isa, macro_parser):
         if cands and r < 0.6:
             ph, n = rng.choice(cands)
             t = [('ph', ph, n)]
-            if ph == 'ARG' and rng.random() < 0.3:
-                t = t + [('tok', '+', t_op('OAdd')), ('tok', '1', t_num(1))]
+            if ph == 'ARG' and rng.random() < 0.45:
+                # the placeholder is replaced by the argument's text: an operator next to it binds as it would in that text
+                t = rng.choice([t + [('tok', '+', t_op('OAdd')), ('tok', '1', t_num(1))],
+                                t + [('tok', '*', t_op('OMul')), ('tok', '2', t_num(2))],
+                                [('tok', '3', t_num(3)), ('tok', '*', t_op('OMul'))] + t,
+                                [('tok', '9', t_num(9)), ('tok', '-', t_op('OSub'))] + t,
+                                t + [('tok', '>>', t_op('OShr')), ('tok', '1', t_num(1))]])
             ops.append(t)
         elif r < 0.9 or not mkinds:
             x = operand_for(rng, alt, [], 0)
@@ -352,6 +363,8 @@ def y_alt(alt):
                 e = {'type': ix['kind']}
                 if ix['kind'] == 'register':
                     e['register'] = ix['register']
+                elif ix['kind'] == 'numeric_bytecode':
+                    e['bytecode'] = {'size': ix['code_size'], 'min': ix['min'], 'max': ix['max']}
                 else:
                     e['argument'] = y_arg(ix['arg'])
                 if ix['code'] is not None:
@@ -515,6 +528,8 @@ def c_zdict(d):
 def c_idx(ix, default):
     if ix['kind'] == 'register':
         return f'IdxReg {C.coq_string_codes(ix["register"])} {c_opt(ix["code"], c_pair)}'
+    if ix['kind'] == 'numeric_bytecode':
+        return f'IdxNumBc {ix["code_size"]} {C.zlit(ix["min"])} {C.zlit(ix["max"])}'
     return f'IdxNum {c_opt(ix["code"], c_pair)} {c_arg(ix["arg"], default)}'
 
 
@@ -629,6 +644,16 @@ def operand_for(rng, alt, labels, addr_hint=0):
         ix = rng.choice(alt['idx'])
         if ix['kind'] == 'register':
             inner = reg(ix['register'])
+        elif ix['kind'] == 'numeric_bytecode':
+            # the index pattern of this kind is a single token: a number, or a (possibly negative) constant
+            r = rng.random()
+            if r < 0.45:
+                n = rng.choice(['KM1', 'KM2', 'K9'])
+                inner = Txt(n, [t_lab(n)])
+            elif r < 0.9:
+                inner = x_num(rng, rng.choice([0, 1, max(0, ix['max']), ix['max'] + 1]))
+            else:
+                inner = x_value(rng, rng.choice([ix['min'], 0, -1]), [])
         else:
             inner = x_value(rng, rng.choice([0, 1, 5 % (1 << ix['arg']['size'])]), [])
         body = reg(alt['register']) + Txt(sp() + '+' + sp(), [t_op('OAdd')]) + inner
@@ -738,6 +763,10 @@ def gen_statement(rng, isa, labels, addr_hint, focus=None):
                 ops.append(random_operand(rng, labels))
             else:
                 ops.append(operand_for(rng, alt, labels, addr_hint))
+                if rng.random() < 0.06:
+                    # text left over after a well-formed operand must not be ignored
+                    ops[-1] = ops[-1] + rng.choice([Txt('!', ['OBang']), Txt(' @ 9', ['OAt', t_num(9)]), Txt(' junk', [t_lab('junk')]),
+                                                    Txt('+1', [t_op('OAdd'), t_num(1)]), Txt(' 7', [t_num(7)]), Txt(' ! 3', ['OBang', t_num(3)])])
     r = rng.random()
     if r < 0.015 and ops:
         ops.pop()
@@ -762,7 +791,7 @@ def gen_isa_case(rng, prof, tier):
     from .sysgen import num
     isa = gen_isa(rng, prof)
     cfg = dict(addr_bits=16, endian=isa['endian'], origin=rng.choice([0, 0, 0x100]), page=1, terminator=0, embedded=False,
-               zones=[list(z) for z in isa['zones']], consts=[['K9', rng.choice([1, 5, 200])]], data=[], syms=[], cli=[])
+               zones=[list(z) for z in isa['zones']], consts=[['K9', rng.choice([1, 5, 200])], ['KM1', -1], ['KM2', -2]], data=[], syms=[], cli=[])
     labels = ['lbl1', 'lbl2', 'K9']
     stmts = []
     addr = cfg['origin']
@@ -800,3 +829,119 @@ def isa_case_term(case):
     cfg_t = cfg_t.replace(f'c_registers := {sysgen.str_list(sysgen.REGISTERS)}', f'c_registers := {sysgen.str_list(case["isa"]["regs"])}')
     return (f'({isa_term(case["isa"], gb)},\n    {cfg_t},\n    [' + ';\n    '.join(files) +
             f'],\n    {{| o_start := {C.zlit(o["start"])}; o_end := {end}; o_fill := {C.zlit(o["fill"])} |}})')
+
+
+# ------------------------------------------------------------------------------------------------ macro scenarios
+def gen_macro_scenario(rng, prof=None, tier='quick'):
+    """a small hand-shaped ISA aimed at macro expansion: placeholders next to operators (the placeholder is replaced by the
+    argument's text, so `@ARG(0)*2` with argument `1+2` is `1+2*2`), macro variants whose operand list contains an `empty`
+    operand (selected exactly as an instruction variant would be), steps of different sizes followed by labels"""
+    from .sysgen import num
+    e = rng.choice(['big', 'little'])
+    asz = rng.choice([8, 16, 16])
+
+    def numeric(i):
+        return {'id': f'n{i}', 'kind': 'numeric', 'code': None, 'pos': 'suffix', 'arg': {'size': asz, 'align': True, 'endian': None}, 'valid': False}
+
+    def regalt(i, r, code):
+        return {'id': f'r{i}', 'kind': 'register', 'code': (code, 4), 'pos': 'suffix', 'register': r, 'dec': None}
+
+    def empty(i, code):
+        return {'id': f'e{i}', 'kind': 'empty', 'code': (code, 4), 'pos': 'suffix'}
+    isa = {'endian': e, 'zones': [], 'regs': list(REGS), 'sets': {'imm': [numeric(1)], 'rr': [regalt(2, 'a', 1), regalt(3, 'b', 2)]},
+           'instrs': {}, 'macros': {}, 'n': 10}
+
+    def sets_parser(names):
+        return {'count': len(names), 'specific': None, 'sets': {'list': list(names), 'rev_arg': False, 'rev_code': False, 'disallowed': []}}
+
+    def spec_parser(count, lists):
+        return {'count': count, 'sets': None, 'specific': [{'ops': ops, 'rev_arg': False, 'rev_code': False} for ops in lists]}
+
+    def variant(opc, size, parser):
+        return {'opcode': (opc, size), 'endian': None, 'suffix': None, 'parser': parser}
+    isa['instrs']['ldx'] = [variant(0x10, 8, sets_parser(['imm']))]
+    isa['instrs']['tst'] = [variant(0, 8, None)]
+    isa['instrs']['mov'] = [variant(0x3, 4, sets_parser(['rr']))]
+    # an instruction with an implied operand: the same operand configuration a macro variant below uses
+    isa['instrs']['swp'] = [variant(0x5, 4, spec_parser(1, [[empty(4, 9)]])), variant(0x6, 4, sets_parser(['rr']))]
+    # a relative jump measured from the end of the instruction: inside a macro, from the end of that step
+    rel_from_end = rng.random() < 0.7
+    isa['sets']['rel'] = [{'id': 'rl1', 'kind': 'relative_address', 'code': None, 'pos': 'suffix',
+                           'arg': {'size': 8, 'align': True, 'endian': None}, 'curly': False, 'min': -8, 'max': 8, 'from_end': rel_from_end}]
+    isa['instrs']['jmpz'] = [variant(0xE0, 8, sets_parser(['rel']))]
+    isa['macros']['mac3'] = [{'parser': sets_parser(['rel']), 'steps': rng.choice([
+        [{'mn': 'jmpz', 'ops': [[('ph', 'OP', 0)]]}, {'mn': 'ldx', 'ops': [[('tok', '7', t_num(7))]]}],
+        [{'mn': 'ldx', 'ops': [[('tok', '7', t_num(7))]]}, {'mn': 'jmpz', 'ops': [[('ph', 'OP', 0)]]}],
+        [{'mn': 'tst', 'ops': []}, {'mn': 'jmpz', 'ops': [[('ph', 'OP', 0)]]}, {'mn': 'tst', 'ops': []}]])}]
+    # an indexed register whose index value is itself the (range checked, possibly negative) code
+    isa['sets']['ixr'] = [{'id': 'ix1', 'kind': 'indexed_register', 'code': (1, 2), 'pos': 'suffix', 'register': 'x', 'dec': None,
+                           'idx': [{'id': 'ix1_0', 'kind': 'register', 'register': 'a', 'code': (5, 3)},
+                                   {'id': 'ix1_1', 'kind': 'numeric_bytecode', 'code': None, 'code_size': 3, 'min': -4, 'max': 3}]}]
+    isa['instrs']['add3'] = [variant(0x5, 3, sets_parser(['ixr']))]
+    ph = ('ph', 'ARG', 0)
+    forms = [[ph], [ph, ('tok', '*', t_op('OMul')), ('tok', '2', t_num(2))], [('tok', '3', t_num(3)), ('tok', '*', t_op('OMul')), ph],
+             [ph, ('tok', '+', t_op('OAdd')), ('tok', '1', t_num(1))], [('tok', '9', t_num(9)), ('tok', '-', t_op('OSub')), ph],
+             [ph, ('tok', '>>', t_op('OShr')), ('tok', '1', t_num(1))], [('tok', '(', 'OT TLPar'), ph, ('tok', ')', 'OT TRPar'), ('tok', '*', t_op('OMul')), ('tok', '2', t_num(2))]]
+    steps = [{'mn': 'ldx', 'ops': [list(rng.choice(forms))]} for _ in range(rng.randint(1, 3))]
+    if rng.random() < 0.5:
+        steps.insert(rng.randrange(len(steps) + 1), {'mn': 'tst', 'ops': []})
+    isa['macros']['dbl'] = [{'parser': sets_parser(['imm']), 'steps': steps}]
+    # variants: a register, or nothing at all (an `empty` operand takes no text)
+    isa['macros']['mac1'] = [{'parser': spec_parser(1, [[regalt(5, 'a', 1)]]), 'steps': [{'mn': 'mov', 'ops': [[('ph', 'OP', 0)]]}]},
+                             {'parser': spec_parser(1, [[empty(6, 7)]]), 'steps': [{'mn': 'tst', 'ops': []}, {'mn': 'swp', 'ops': []}]}]
+    isa['macros']['mac2'] = [{'parser': spec_parser(2, [[regalt(7, 'b', 2), empty(8, 3)]]),
+                              'steps': [{'mn': 'mov', 'ops': [[('ph', 'REG', 0)]]}, {'mn': 'ldx', 'ops': [[('tok', '7', t_num(7))]]}]}]
+    cfg = dict(addr_bits=16, endian=e, origin=rng.choice([0, 0x100]), page=1, terminator=0, embedded=False, zones=[],
+               consts=[['K9', rng.choice([1, 5])], ['KM1', -1], ['KM2', -2]], data=[], syms=[], cli=[])
+    labels = ['lbl1', 'lbl2', 'K9']
+    stmts = []
+    placed = set()
+
+    def small_expr():
+        r = rng.random()
+        a, b = rng.choice([1, 2, 3, 4]), rng.choice([1, 2, 3])
+        if r < 0.25:
+            return Txt(str(a), [t_num(a)])
+        if r < 0.6:
+            return Txt(f'{a}+{b}', [t_num(a), t_op('OAdd'), t_num(b)])
+        if r < 0.75:
+            return Txt(f'{a + b}-{b}', [t_num(a + b), t_op('OSub'), t_num(b)])
+        n = rng.choice(labels)
+        if rng.random() < 0.5:
+            return Txt(n, [t_lab(n)])
+        return Txt(f'{n}+{b}', [t_lab(n), t_op('OAdd'), t_num(b)])
+    for _ in range(rng.randint(2, 6)):
+        r = rng.random()
+        if r < 0.45:
+            x = small_expr()
+            stmts.append(['asm', 'dbl', [[x.text, x.toks]]])
+        elif r < 0.6:
+            stmts.append(['asm', 'mac1', rng.choice([[], [['a', [t_lab('a')]]], [['b', [t_lab('b')]]]])])
+        elif r < 0.7:
+            stmts.append(['asm', 'mac2', rng.choice([[['b', [t_lab('b')]]], [['a', [t_lab('a')]]], []])])
+        elif r < 0.76:
+            stmts.append(['asm', 'swp', rng.choice([[], [['a', [t_lab('a')]]]])])
+        elif r < 0.84:
+            n = rng.choice(['lbl1', 'lbl2'])
+            x = rng.choice([Txt(n, [t_lab(n)]), Txt(f'{n}+1', [t_lab(n), t_op('OAdd'), t_num(1)]), Txt(f'{n}-2', [t_lab(n), t_op('OSub'), t_num(2)])])
+            stmts.append(['asm', rng.choice(['mac3', 'mac3', 'jmpz']), [[x.text, x.toks]]])
+        elif r < 0.9:
+            i = rng.choice(['KM1', 'KM2', 'K9', 'a', '3', '0', '4'])
+            tok = t_num(int(i)) if i.isdigit() else t_lab(i)
+            stmts.append(['asm', 'add3', [[f'x+{i}', [t_lab('x'), t_op('OAdd'), tok]]]])
+        elif r < 0.95:
+            x = small_expr()
+            stmts.append(['asm', 'ldx', [[x.text, x.toks]]])
+        else:
+            stmts.append(['asm', 'tst', []])
+        if rng.random() < 0.3:
+            c = [x for x in ('lbl1', 'lbl2') if x not in placed]
+            if c:
+                placed.add(c[0])
+                stmts.append(['label', c[0]])
+    for x in ('lbl1', 'lbl2'):
+        if x not in placed:
+            stmts.append(['label', x])
+    stmts.append(['data', 2, [('lab', 'lbl1'), ('lab', 'lbl2')]])
+    return {'cfg': cfg, 'isa': isa, 'isa_yaml': isa_yaml(isa, cfg), 'files': [{'name': 'main.asm', 'dir': 'src', 'stmts': stmts}],
+            'include_dirs': [], 'extra_files': [], 'opts': {'start': cfg['origin'], 'end': None, 'fill': 0}}
